@@ -18,6 +18,7 @@ type Group struct {
 	C, A    bool
 	K       int64
 	Main    string   // the main row, SGR stripped, without newline
+	RawMain string   // the main row as written (with SGR sequences)
 	Lines   []string // all lines of the group, top to bottom
 	MainIdx int      // index of Main within Lines
 }
@@ -96,10 +97,11 @@ func parseFrame(idx int, o OutRec) Frame {
 			if n := len(f.Groups); n > 0 && f.Groups[n-1].ID == id && f.Groups[n-1].MainIdx < 0 {
 				g := &f.Groups[n-1]
 				g.Cur, g.Tot, g.C, g.A, g.K, g.Main = cur, tot, m[4] == "1", m[5] == "1", k, line
+				g.RawMain = raw
 				g.MainIdx = len(g.Lines)
 				g.Lines = append(g.Lines, line)
 			} else {
-				f.Groups = append(f.Groups, Group{ID: id, Cur: cur, Tot: tot, C: m[4] == "1", A: m[5] == "1", K: k, Main: line, Lines: []string{line}, MainIdx: 0})
+				f.Groups = append(f.Groups, Group{ID: id, Cur: cur, Tot: tot, C: m[4] == "1", A: m[5] == "1", K: k, Main: line, RawMain: raw, Lines: []string{line}, MainIdx: 0})
 			}
 			continue
 		}
